@@ -107,10 +107,12 @@ func (u *lendU) PoolAddr(poolID uint64) sdk.AccAddress { return u.c.ModAddr(u.Po
 // variant%3: 0 = all decimals 1e6, round prices, LTVs with one decimal (exact
 // boundaries are hit); 1 = odd prices, OSMO with 1e8 decimals; 2 = like 0 but
 // high utilisation kink (u_optimal 0.5) and larger rates so interest is large.
-// lendAppSlot is the app id the next lendUniverse gives the lend app (0/1 = first app).
-var lendAppSlot int
-
 func lendUniverse(t *testing.T, c *sim.Chain, variant int) *lendU {
+	return lendUniverseApp(t, c, variant, 1)
+}
+
+// lendUniverseApp: lendAppSlot is the app id the lend app gets (1 = first app).
+func lendUniverseApp(t *testing.T, c *sim.Chain, variant int, lendAppSlot int) *lendU {
 	t.Helper()
 	ctx := c.Ctx()
 	u := &lendU{c: c, variant: variant, Assets: map[uint64]*lendAsset{}, ByDenom: map[string]*lendAsset{}, Pools: map[uint64]*lendPoolInfo{}}
